@@ -50,7 +50,11 @@ func (p *protocolV2) IOLoop(c protocol.Client) error {
 	// and avoid a potential race with IDENTIFY (where a client
 	// could have changed or disabled said attributes)
 	messagePumpStartedChan := make(chan bool)
-	go p.messagePump(client, messagePumpStartedChan)
+	messagePumpDoneChan := make(chan struct{})
+	go func() {
+		p.messagePump(client, messagePumpStartedChan)
+		close(messagePumpDoneChan)
+	}()
 	<-messagePumpStartedChan
 
 	for {
@@ -118,6 +122,12 @@ func (p *protocolV2) IOLoop(c protocol.Client) error {
 	if client.Channel != nil {
 		client.Channel.RemoveClient(client.ID)
 	}
+
+	// join the messagePump: the connection is of no use any more, closing it
+	// makes a pump that is blocked in a write return. When IOLoop returns, a
+	// message the pump took from the channel has been registered in flight.
+	client.Close()
+	<-messagePumpDoneChan
 
 	return err
 }
